@@ -631,6 +631,39 @@ def _context_discipline(prog, chk, fns):
                     r = SX.strip(r['e'] if r['k'] == 'cast' else SX.real_args(r)[0])
                 if SX.is_node(r) and r.get('k') == 'ref' and r.get('kind') == 'var':
                     restored.add(SX.strip(w[0])['name'])
+    # RAII context guards: a nested class whose constructor copies analyser members into its own fields and whose destructor puts
+    # them back — a local of such a class, declared before the visitor writes one of those members, is both the save and the restore
+    guard_members = {}       # guard record name → {context member}
+    for c_ in prog.functions:
+        if c_.kind != 'ctor' or not c_.cls or not c_.cls.startswith(AN + '::'):
+            continue
+        saved_in = {}       # guard field → analyser member
+        for i_ in (c_.d.get('inits') or []):
+            e_ = SX.strip(i_.get('init'))
+            while SX.is_node(e_) and e_.get('k') in ('cast', 'construct') and (e_['k'] == 'cast' or len(SX.real_args(e_)) == 1):
+                e_ = SX.strip(e_['e'] if e_['k'] == 'cast' else SX.real_args(e_)[0])
+            if SX.is_node(e_) and e_.get('k') == 'member' and (e_.get('q') or '').startswith(AN + '::') and SX.is_node(SX.strip(e_.get('base'))) and SX.strip(e_['base']).get('kind') == 'param':
+                saved_in[i_.get('member')] = e_['name']
+        if not saved_in:
+            continue
+        put_back = set()
+        for d_ in prog.functions:
+            if d_.kind == 'dtor' and d_.cls == c_.cls and d_.body:
+                for n_ in SX.walk(d_.body):
+                    w_ = SX.write_target(n_)
+                    if not (w_ and w_[2] == '='):
+                        continue
+                    l_ = SX.strip(w_[0])
+                    r_ = SX.strip(w_[1])
+                    while SX.is_node(r_) and r_.get('k') in ('call', 'cast') and (r_['k'] == 'cast' or (SX.callee(r_) or '').startswith('std::move')):
+                        r_ = SX.strip(r_['e'] if r_['k'] == 'cast' else SX.real_args(r_)[0])
+                    if SX.is_node(l_) and l_.get('k') == 'member' and (l_.get('q') or '').startswith(AN + '::') and SX.is_this_member(r_) and saved_in.get(r_['name']) == l_['name']:
+                        put_back.add(l_['name'])
+        if put_back:
+            guard_members[c_.cls] = put_back
+    for ms_ in guard_members.values():
+        saved_somewhere |= ms_
+        restored |= ms_
     ctx = saved_somewhere & restored
     chk.count('analyser context members (saved and restored somewhere)', len(ctx), 5)
     nsite = 0
@@ -692,6 +725,12 @@ def _context_discipline(prog, chk, fns):
                 continue
             nsite += 1
             key = 'context:%s:%s' % (_fkey(f), m)
+            gdecls = [d for d in g.nodes if d.kind == 'decl' and m in guard_members.get((d.e.get('type') or '').replace('const ', '').strip(), set())]
+            if gdecls:
+                okg = all(any(g.dominates(d, n) for d in gdecls) for n, l, r in sets)
+                chk.ob('R16.D', f, sets[0][0].ln or f.ln, okg, '%s sets %s for the body it analyses; a context guard declared before the write saves it and restores it on every exit%s' % (
+                    _fkey(f), m, '' if okg else ': the write is not preceded by the guard'), key=key)
+                continue
             if not sl:
                 why = CONTEXT_SIGNALS.get((_fkey(f), m))
                 chk.ob('R16.D', f, sets[0][0].ln or f.ln, why is not None,
